@@ -935,6 +935,19 @@ func (e *Env) call(n *ECall) TV {
 			}
 		}
 		return TV{S: and(cs...), Sort: sBool, Ty: boolT}
+	case "sameAt":
+		// sameAt(<location spec>, r): the components named by the specification hold at reference
+		// r what they held in the old state
+		if len(n.Args) == 2 {
+			r := arg(1)
+			var cs []string
+			for _, comp := range e.locComps(n.Args[0]) {
+				cs = append(cs, eq(sel(vc.cur(e.st, comp), r.S), sel(vc.cur(e.old, comp), r.S)))
+			}
+			return TV{S: and(cs...), Sort: sBool, Ty: boolT}
+		}
+		e.fail("sameAt(<location spec>, r)")
+		return TV{}
 	case "unchangedAt":
 		// unchangedAt(p.f): the single location is unchanged
 		var cs []string
@@ -1356,6 +1369,10 @@ func (e *Env) tryResolveType(te TypeExpr) (t types.Type) {
 
 // locComps: components named by an expression used as a location (unchanged(...)).
 func (e *Env) locComps(x Expr) []string {
+	if sl, ok := x.(*EStr); ok {
+		// a location specification that is not an expression (map[string]any, []any)
+		return e.compsOfLocSpec(sl.Val)
+	}
 	if id, ok := x.(*EIdent); ok {
 		if g, ok := e.vc.prog.cs.Ghosts[id.Name]; ok {
 			c, _, _ := e.ghostComp(g)
